@@ -37,6 +37,12 @@ fn producers_variants() -> Vec<(&'static str, Option<Vec<(&'static str, Vec<(&'s
 }
 
 pub fn build_input(with_names: bool, prod: usize, dwarf: bool) -> Vec<u8> {
+    build_input_x(with_names as u8, prod, dwarf)
+}
+
+/// `names`: 0 = no name section, 1 = one, 2 = the same names spread over two `name` sections
+pub fn build_input_x(names: u8, prod: usize, dwarf: bool) -> Vec<u8> {
+    let with_names = names == 1;
     let mut m = names_base(0);
     // single memory, so that the module is also valid under only_stable_features
     m.mems.truncate(1);
@@ -45,6 +51,10 @@ pub fn build_input(with_names: bool, prod: usize, dwarf: bool) -> Vec<u8> {
     if with_names {
         // all subsections except memory and data names (which would name the removed entities)
         m.customs.push((12, "name".into(), names_payload(0, 0b011011111)));
+    }
+    if names == 2 {
+        m.customs.push((12, "name".into(), names_payload(0, 0b000000110)));
+        m.customs.push((12, "name".into(), names_payload(0, 0b011011001)));
     }
     if let Some(p) = &producers_variants()[prod].1 {
         m.customs.push((12, "producers".into(), mb::producers(p)));
@@ -560,10 +570,13 @@ pub fn run(args: &Args) -> i32 {
         return finish(args, ev, v, &|c| recheck(c, &version));
     }
     let mut cases = vec![];
-    for with_names in [false, true] {
+    for with_names in [0u8, 1, 2] {
         for prod in 0..producers_variants().len() {
+            if with_names == 2 && prod > 1 {
+                continue;
+            }
             for dwarf_in in [false, true] {
-                let wasm = build_input(with_names, prod, dwarf_in);
+                let wasm = build_input_x(with_names, prod, dwarf_in);
                 for bits in 0..64u32 {
                     let cfg = Cfg {
                         names: bits & 1 != 0,
